@@ -34,6 +34,33 @@ def ll_vec(X):
     return out
 
 
+_BUF = {}
+
+
+def ll_vec_buf(X):
+    """honours the documented interface (batch in, array of log-likelihoods out) and recycles one output buffer per batch size"""
+    X = np.atleast_2d(X)
+    out = _BUF.setdefault(len(X), np.empty(len(X)))
+    out[:] = ll_vec(X)
+    return out
+
+
+def ll_vec_ro(X):
+    out = ll_vec(X)
+    out.setflags(write=False)
+    return out
+
+
+class Derived:
+    """a user object attached as a blob: it keeps a view of the first coordinate of the point it was computed from"""
+    def __init__(self, x):
+        self.head = x[:1]
+
+
+def ll_objblob(x):
+    return ll_scalar(x), Derived(x)
+
+
 def check_rows(tag, u, x, logl, blobs, periodic, reflective, allow_inf=False):
     u, x, logl = np.asarray(u), np.asarray(x), np.asarray(logl)
     if not (len(u) == len(x) == len(logl)) or (blobs is not None and len(blobs) != len(u)):
@@ -55,8 +82,28 @@ def check_rows(tag, u, x, logl, blobs, periodic, reflective, allow_inf=False):
     return None
 
 
+def run_objblob(s):
+    it = 0
+    while s._core._not_termination() and it < 40:
+        st = s.sample()
+        it += 1
+        H = s.state
+        for t in range(H.get_history_length()):
+            xs, bs = H.get_history("x", index=t), H.get_history("blobs", index=t)
+            for i in range(len(xs)):
+                b = np.asarray(getattr(bs[i], "head", bs[i]), dtype=float).ravel()
+                if b.shape != (1,) or b[0] != xs[i][0]:
+                    return (f"after iteration {it}: object blob of particle {i} in history batch {t} is {b.tolist()}, its particle has x[0] = {float(xs[i][0])!r} "
+                            f"(a committed record changed after it was committed, or the blob belongs to another particle)")
+    out = s.posterior(return_blobs=True)
+    for xi, bi in zip(out[0], out[3]):
+        if float(np.asarray(getattr(bi, "head", bi), dtype=float).ravel()[0]) != float(xi[0]):
+            return "posterior(return_blobs=True): an object blob does not belong to its sample row"
+    return None
+
+
 def run_one(cfg):
-    kw = dict(n_dim=2, n_particles=24, random_state=cfg["seed"], sample=cfg["kernel"], resample=cfg["resample"],
+    kw = dict(n_dim=2, n_particles=cfg.get("n_particles", 24), random_state=cfg["seed"], sample=cfg["kernel"], resample=cfg["resample"],
               clustering=cfg["clustering"], periodic=cfg["periodic"], reflective=cfg["reflective"],
               volume_variation=cfg["vv"], ess_ratio=1.5)
     blobs = cfg["like"] == "blob"
@@ -73,10 +120,19 @@ def run_one(cfg):
         s = Sampler(pt, ll_blob, blobs_dtype="float", **kw)
     elif cfg["like"] == "vec":
         s = Sampler(pt, ll_vec, vectorize=True, **kw)
+    elif cfg["like"] == "vecbuf":
+        _BUF.clear()
+        s = Sampler(pt, ll_vec_buf, vectorize=True, **kw)
+    elif cfg["like"] == "vecro":
+        s = Sampler(pt, ll_vec_ro, vectorize=True, **kw)
+    elif cfg["like"] == "objblob":
+        s = Sampler(pt, ll_objblob, blobs_dtype=object, **kw)
     else:
         s = Sampler(pt, ll_scalar, **kw)
     s._core._initialize_fresh()
-    s._core.n_total = 96
+    s._core.n_total = 4 * kw["n_particles"]
+    if cfg["like"] == "objblob":
+        return run_objblob(s)
     it = 0
     while s._core._not_termination() and it < 40:
         st = s.sample()
@@ -178,7 +234,9 @@ def main():
         cfgs.append(dict(kernel=kernel, resample=resample, clustering=clustering, like=like, periodic=bc[0], reflective=bc[1], vv=vv, seed=3))
     # pairwise-ish thinning: every 5th configuration plus all blob x boundary x kernel combinations
     pick = [c for i, c in enumerate(cfgs) if i % 5 == 0 or (c["like"] == "blob" and c["vv"] is None and c["resample"] == "mult")]
-    pick = [dict(kernel="rwm", resample="syst", clustering=False, like="scalar", periodic=None, reflective=None, vv=None, seed=3, pool="executor"),
+    pick = [dict(kernel=k, resample="mult", clustering=c, like=lk, periodic=None, reflective=None, vv=None, seed=sd, n_particles=npart)
+            for k in ("tpcn", "rwm") for lk, npart, c, sd in (("vecbuf", 6, False, 3), ("vecbuf", 24, True, 3), ("objblob", 24, False, 3), ("vecbuf", 5, False, 4))] + \
+           [dict(kernel="rwm", resample="syst", clustering=False, like="scalar", periodic=None, reflective=None, vv=None, seed=3, pool="executor"),
             dict(kernel="tpcn", resample="mult", clustering=True, like="blob", periodic=None, reflective=None, vv=None, seed=3, pool="executor")] + pick
     tried = 0
     for c in pick:
